@@ -9,6 +9,8 @@ machine object are the *wiring* (which platform number a named switch/coil has) 
 Physical model (documented envelope, also listed in the checks' ASSUMPTIONS):
   * switch-counted device  = N slots, one switch per slot, a resting ball closes its slot's switch.
     An eject coil moves exactly one ball (lowest occupied slot).  An arriving ball takes the lowest free slot.
+  * entrance-counted device with entrance_switch_full_timeout (Gottlieb trough) = as below, but the ball that fills
+    the device rests on the entrance switch until a ball is ejected and the balls roll down
   * entrance-counted device = a magazine of `capacity` balls behind one entrance switch that a passing ball
     closes for a few ten ms.
   * every device has one physical exit that leads to exactly one place (no diverters).
@@ -95,6 +97,11 @@ def build_config(topo):
             cfg["ball_capacity"] = d["slots"]
             cfg["counter"] = {"class": "mpf.devices.ball_device.entrance_switch_counter.EntranceSwitchCounter",
                               "settle_time_ms": d.get("settle_time_ms", 500)}
+            if d.get("full_timeout_ms"):
+                # Gottlieb-style: the ball that fills the device rests on the entrance switch
+                cfg["counter"]["entrance_switch_full_timeout"] = d["full_timeout_ms"]
+                if d.get("initial", 0) == d["slots"]:
+                    active.append(sn)
         ej = d["ejector"]
         if ej in ("pulse", "mech_coil"):
             coils["c_" + name] = {"number": "c_" + name, "default_pulse_ms": 20}
@@ -119,6 +126,8 @@ def build_config(topo):
             cfg["tags"] = d["tags"]
         if name == "bd_plunger":
             cfg["request_ball_events"] = "ev_req_plunger"
+        if name == topo["source"]:
+            cfg["eject_events"] = "ev_add_ball"      # manual request of one ball for the playfield
         if d.get("idle_missing_ball_timeout_s"):
             cfg["idle_missing_ball_timeout"] = "%ss" % d["idle_missing_ball_timeout_s"]
         if os.environ.get("C04_DEBUG"):
@@ -179,6 +188,8 @@ class PDev:
         self.rest_since = {}                     # ball id -> time it came to rest here
         self.plunge_pending = False
         self.entrance_busy_until = -1.0
+        self.full_timeout = d.get("full_timeout_ms", 0) / 1000.0   # >0: the filling ball rests on the entrance switch
+        self.entrance_held = False                                   # a ball rests on the entrance switch
         self.coil_on = False
 
     def count(self):
@@ -233,6 +244,13 @@ class World:
                     pd.rest_since[b] = -1000.0
             else:
                 pd.switch_names = ["s_%s_ent" % pd.name]
+                if pd.full_timeout and d.get("initial", 0) == pd.capacity:
+                    for i in range(pd.capacity):
+                        b = self._new_ball()
+                        pd.inside.append(b)
+                        self.balls[b] = ("dev", pd.name)
+                        pd.rest_since[b] = -1000.0
+                    pd.entrance_held = True
         self.total_balls = len(self.balls)
         self.pending = 0          # scheduled physics callbacks not yet executed
         self.last_change = self.now()
@@ -408,6 +426,11 @@ class World:
         else:
             pd.inside.remove(ball)
             pd.rest_since.pop(ball, None)
+            if pd.entrance_held:
+                # the balls roll down: the one that rested on the entrance switch leaves it
+                pd.entrance_held = False
+                pd.entrance_busy_until = self.now() + 0.2
+                self.after(self._u(0.05, 0.15), self.report, pd.switch_names[0], 0)
         et, mt = pd.eject_timeout, pd.missing_timeout
         lo, hi = self.benign_transit
         if outcome == "ok":
@@ -462,6 +485,9 @@ class World:
             self._log("arrive", dst, ball, src)
             self.report(td.switch_names[i], 1)
         else:
+            if td.entrance_held or len(td.inside) >= td.capacity:
+                self._bounce(ball, src, dst, by_mpf)
+                return
             if self.now() < td.entrance_busy_until:
                 # two balls cannot pass one entrance switch at the same time: the second one queues behind the first
                 # and closes the switch only after it has opened again
@@ -479,9 +505,12 @@ class World:
             self._log("arrive", dst, ball, src)
             sn = td.switch_names[0]
             self.report(sn, 1)
-            closed_for = self._u(0.02, 0.09)
-            td.entrance_busy_until = self.now() + closed_for
-            self.after(closed_for, self.report, sn, 0)
+            if td.full_timeout and len(td.inside) == td.capacity:
+                td.entrance_held = True          # device full: this ball rests on the entrance switch
+            else:
+                closed_for = self._u(0.02, 0.09)
+                td.entrance_busy_until = self.now() + closed_for
+                self.after(closed_for, self.report, sn, 0)
         if by_mpf and src != dst:
             self.deliveries[dst] = self.deliveries.get(dst, 0) + 1
             self._emit("delivered", target=dst, src=src, ball=ball)
